@@ -57,6 +57,7 @@ pub fn profile(r: &mut Rng) -> Profile {
     p.switch_pct = 15;
     p.chars_pct = 8;
     p.small_geo_pct = 65;
+    p.big_permille = 4;
     p.focus = *r.pick(&[
         Focus::Any,
         Focus::Any,
